@@ -10,6 +10,12 @@ CHECKS = {
  "C03": ("hostile-input fuzzing of every parser in child processes under a logical termination oracle (counting reader: bounded post-EOF reads; per-case CPU budget), crash/exit capture through a write-ahead case log, and a well-formedness oracle on every successful result",
          "Held on the inputs executed: mutants (1-3 deep) of valid files of 12 format/option sets and of the partition format, all prefixes and all single-byte corruptions of sampled files, each parser option set; every call must terminate, not crash, and either fail explicitly or return a non-empty rectangular uniquely named result consistent with the header counts.",
          "Trusted: the monitor's own header scanner and termination thresholds (10000 post-EOF reads, 20 s CPU per parse of a < 2 kB input); io.ExitWithMessage counts as an explicit error; only generated mutants are covered.", "1/C03"),
+ "C07": ("independent re-implementation of the published estimators (reference-model runtime monitor) compared entry by entry with dna.DistMatrix / DistModel.Distance on generated alignments and option sets, plus matrix sanity relations",
+         "Held on the (alignment, option set) pairs executed: every matrix entry equals the oracle's estimator within 1e-9 (under one of the readings the statement leaves open), symmetric, zero diagonal, 0 without counted difference, d >= p, undefined pairs reported as NaN/Inf/2*max.",
+         "Trusted: lib/ref/ntdist.go (formulas typed from the literature), tolerance 1e-9, leniency on ill-conditioned pairs (a log argument within 1e-6 of 0). One recorded known finding (F84/TN93/F81 below p on skewed compositions).", "1/C07"),
+ "C08": ("metamorphic two-run monitor (permutation, replication, weights, strand, row order) + Go race detector over a schedule-perturbing, event-recording DistModel wrapper with an offline exactly-once checker + exhaustive enumeration of k-th-call model faults with a goroutine-dump deadlock probe",
+         "Held on the executions observed: relations within 1e-9 on well-conditioned inputs; bit-identical matrices for 6 worker counts x GOMAXPROCS x perturbation plans with zero race reports; every fault position of small matrices returns the injected error without hanging. fault_enumeration for the fault part, exploration for the rest.",
+         "Trusted: Go race detector (finds only races on the interleavings driven), the deadlock classifier over runtime.Stack, the C07 oracle for the ill-conditioned filter.", "1/C08"),
 }
 NOT_YET = {}
 def main():
